@@ -114,8 +114,11 @@ PROP = dict(
         "finite); the former premise box_ok32 is proved from it (C03_box_ok32_holds, monotone f64->f32 cast, Flocq) and still evaluated on "
         "every in-contract case by the run glue as a cross-check; its fuel bound 2^33 is a termination bound, not a tight one (the runs use "
         "fuel 2000 and never met OutOfFuel)",
-        "C03_rcb_total_finite_f64 / C03_rcb_bisect_tree_finite_f64 cover the whole contract `finite f64 coordinates` (binary32 images may be "
-        "+-inf): termination, totality, one id per point, ids < 2^iter_count, tree structure; fuel bound 2^34 (termination bound, not tight)",
+        "C03_rcb_total_finite_f64 / C03_rcb_bisect_tree_finite_f64 cover the whole contract `finite f64 coordinates`, for the clamped cast of the "
+        "current source (flag rcb_clamp_cast, read by the translator) and for the plain cast (images +-inf): termination, totality, one id per "
+        "point, ids < 2^iter_count, tree structure; fuel bound 2^34 (termination bound, not tight)",
+        "the statements and the certified checker speak of the binary32 coordinates clamped to [f32::MIN, f32::MAX] (to32c); on coordinates "
+        "whose image is finite this is the plain image (to32)",
         "the C03 theorems require the binary32 image of every coordinate not to be NaN (true of every finite f64; checked per case by the run glue)",
     ],
 )
